@@ -449,6 +449,9 @@ func CheckC19(s *Session, st *StepObs, probe bool) []Finding {
 			if !e.FilterHasIt && !laterDisconnected(st.Events[i+1:], e) {
 				out = append(out, Finding{"c19/connect-before-commit/" + kc, fmt.Sprintf("connected event for height %d received while the filter store tip was %d", e.Height, e.FilterTipAt)})
 			}
+			if e.MidProbe != "" {
+				out = append(out, Finding{"c19/backlog-mid-batch/" + kc, e.MidProbe})
+			}
 			if !e.BlockAtMatch && !laterDisconnected(st.Events[i+1:], e) {
 				out = append(out, Finding{"c19/connect-wrong-header/" + kc, fmt.Sprintf("connected event for height %d does not carry the block header stored at that height", e.Height)})
 			}
